@@ -90,7 +90,19 @@ def rule_D5(body):
     return re.sub(r"\|_\|", "|_u|", body), [("D5", "|_|", "|_u|")] * n
 
 
-RULES = {"D2": rule_D2, "D5": rule_D5}
+def rule_D5c(body):
+    """D5 for `Option::map(|_| ident)`: the closure gets a parameter name and a ghost signature
+    `|_u| -> (k: usize) ensures k == ident { ident }` (same executable meaning); must match exactly once."""
+    pat = re.compile(r"\.map\(\|_\|\s*([A-Za-z_][A-Za-z0-9_]*)\s*\)")
+    hits = pat.findall(mask(body))
+    if len(hits) != 1:
+        raise LostAnchor(f"rule D5c: `.map(|_| ident)` matched {len(hits)} times")
+    ident = hits[0]
+    new = f".map(|_u| -> (k: usize) ensures k == {ident} {{ {ident} }})"
+    return pat.sub(new, body, count=1), [("D5", f".map(|_| {ident})", new)]
+
+
+RULES = {"D2": rule_D2, "D5": rule_D5, "D5c": rule_D5c}
 
 
 class FnUnit:
